@@ -338,7 +338,14 @@ class ElementList(MutableSequence):
             child = value
         elif isinstance(value, BaseDataType):
             child = self.create_element(name, False, reference)
-            child.value = value
+            try:
+                child.value = value
+            except Exception:
+                # the value is refused: the element just created to hold it must not stay behind
+                if any(c is child for c in self.list):
+                    self.remove(child)
+                child._parent = None
+                raise
         else:
             raise ChildNotValid(value, child_name)
 
